@@ -4,7 +4,7 @@
 From Coq Require Import List NArith Bool Arith String.
 Import ListNotations.
 Require Import Reader Chunk.
-Require Chunk16.
+Require Chunk16 Detect.
 
 (* KIND C07_feed_whole : U *)
 (* feeding ANY list of reads (every size, splits inside multi-byte sequences included) non-finally, carrying the undecoded
@@ -61,7 +61,18 @@ Example C07_utf16_nonvacuous :
   Chunk16.feed false [] [[0; 97; 220]; [0]]%N [] 0 = Chunk16.feed false [] [[0]; [97; 220; 0]]%N [] 0.
 Proof. vm_compute. repeat split; reflexivity. Qed.
 
-(* PARTIAL: encoding_detection_schedule_free and reader_delivery_independent (line/column equal for
+(* KIND C07_encoding_detection_independent_of_delivery : U *)
+(* encoding detection (Reader.determine_encoding: keep reading until two bytes are there or the stream ends, then look for a UTF-16
+   BOM): for EVERY byte sequence and EVERY read schedule the encoding chosen for the stream is a function of the whole byte string -
+   its first two bytes - and therefore the one chosen when the same bytes are passed as a bytes object *)
+Theorem C07_encoding_detection_independent_of_delivery : forall data szs,
+  let s := {| sdata_b := data; sdata_s := []; is_text := false; sizes := szs |} in
+  Detect.chosen (detect_loop (4 + (List.length data + 0)) (upd blank (Some s) 0 false [] 0 RawNone [])) = Some (Detect.enc_of data) /\
+  Detect.chosen (detect_loop 4 (upd blank None 0 true [] 0 (RawBytes data) [])) = Some (Detect.enc_of data).
+Proof. intros data szs s. split; [exact (Detect.encoding_detection_independent_of_delivery data szs)|reflexivity]. Qed.
+Eval vm_compute in "ASSUME:C07_encoding_detection_independent_of_delivery"%string. Print Assumptions C07_encoding_detection_independent_of_delivery.
+
+(* PARTIAL: reader_delivery_independent (line/column equal for
    all forms) are not proved; they are decided by the reader correspondence (all four input forms, read schedules, read()
    call log) and the direct run over all split positions.  FULL "same error regardless of form" is refuted when a second,
    earlier scanner/parser error exists (eager vs block-wise validation): see known findings. *)
